@@ -12,6 +12,10 @@ claimed = {
    "Decides structural necessary conditions of 'no wedge': monitor discipline of every lock-protected sync.Cond (wait loop; producer writes under the lock followed by Signal/Broadcast), heartbeat presence and polarity for both lock-free event pools with sibling agreement, charge/re-charge protocol, blocked-stream time-out machinery, flush heartbeat with age clause, worker never reaches the fill lock. It does not decide any bound on time."),
  "C05": ("who-may-call on the unexported pool interface, must-pass-through CFG rules with consumption summaries, +1/0/-1 effect balance of the in-use counters", "§3 C05",
    "Decides structural necessary conditions of capacity/conservation: who may get/back; every path of In after get streams the event or returns it (and never both); low-memory admission under Inc()<=capacity with undo before waiting; one Inc per get / one Dec per back and slot = counter mod capacity for the standard pool; finalizer returns only regular events when asked, once; every foreign Event literal is re-kinded. It does not decide the count under a concrete interleaving nor the slot CAS protocol."),
+ "C08": ("lock-region dataflow with release-aware interprocedural summaries (send vs close), CFG must-pass rules, guard-clause normalisation of the readiness formula", "§3 C08",
+   "Decides structural necessary conditions of the batcher contract: append-then-check in one fill-lock region, every send on the closable channel inside the lock region behind the stop-flag test, batch=nil/seq before the send under the lock, count clause >= and bytes clause <= with limit-set guards, sequenced commit, flush heartbeat, worker never takes the fill lock, stop shape. It does not decide byte/count arithmetic over arrival patterns nor flush latency."),
+ "C09": ("CFG control-dependence rules with polarity on the retry loop, loop-counter shape for the attempt lower bound, sibling agreement over all NewRetriableBatcher call sites", "§3 C09",
+   "Decides structural necessary conditions of one-way routing of a failed batch: retry-loop exits and attempt lower bound, exhaustion path (callback once with the batch's events; reset+InDeadQueue iff the dead-queue flag, both directions), commit loads events after the send, nine sibling onError closures agree (unconditional Fail loop over every event, flag wired from the Router, fatal only without dead queue), Router.Fail shape. It does not decide pause growth or run-time issuer identity."),
 }
 NA = {
  "C06": "the claim is an equation between runtime byte positions (offset = start + scanned) for every content, buffer size and append split; no sound static argument in reach bounds it, and the only structural proxies are matches on one loop's arithmetic (a frozen fragment)",
